@@ -351,8 +351,10 @@ func ReleaseAST(ast *AST) {
 		ast.Statements[i] = nil
 	}
 
-	// Reset slice but keep capacity
-	ast.Statements = ast.Statements[:0]
+	// Drop the statement array like the comment array below: it may be one the
+	// caller assigned and still holds, and the next user of the container must
+	// not append into it (the parser entry points allocate their own anyway)
+	ast.Statements = nil
 
 	// Drop the comments together with their array: it may be one the caller
 	// assigned and still holds, and the next user of the container must not
